@@ -610,6 +610,9 @@ var Prop = &harness.Prop{
 			u = append(u, limbUnit(top, i, tier))
 		}
 		u = append(u, miscUnit(), extremePointsUnit(), montPointsUnit(tier == "thorough"))
+		for p := 0; p < 4; p++ {
+			u = append(u, freshCurveUnit(p, 4))
+		}
 		return u
 	},
 }
